@@ -151,8 +151,17 @@ def headers_grammar(toks, row):
             okfill = True
     if not okfill:
         return "the status code is not copied into bytes 8..11 of the status line"
-    if t1[0] != 'var' or not any(x[0] == 'call' and x[1].endswith("canonical_reason") for x in ir.walk(t1[1])) or not any(
-            ir.const_value(x) == b"Custom" for x in ir.walk(t1[1])):
+    def from_reason(e):
+        return any(x[0] == 'call' and x[1].endswith("canonical_reason") for x in ir.walk(e))
+    one_expr = t1[0] == 'var' and from_reason(t1[1]) and any(ir.const_value(x) == b"Custom" for x in ir.walk(t1[1]))
+    # or the same choice spelled as a match: Some(phrase) => phrase, None => b"Custom"
+    arm = None
+    for (e, lab, n) in row.conds:
+        pe = ir.peel(e)
+        if pe[0] == 'discr' and ir.peel(pe[1])[0] == 'call' and ir.peel(pe[1])[1].endswith("canonical_reason") and isinstance(lab, tuple):
+            arm = 'Some' if (lab == ('case', 1) or (lab[0] == 'otherwise' and 0 in lab[1])) else ('None' if (lab == ('case', 0) or (lab[0] == 'otherwise' and 1 in lab[1])) else None)
+    by_match = (arm == 'Some' and t1[0] == 'var' and from_reason(t1[1])) or (arm == 'None' and t1[0] == 'lit' and t1[1] == b"Custom")
+    if not (one_expr or by_match):
         return "reason phrase is not canonical_reason() or \"Custom\""
     rest = toks[2:]
     if rest[-1] != ('lit', b"\n\n"):
